@@ -19,16 +19,35 @@ pub fn static_id(id: &str) -> Option<&'static str> {
     ALL.iter().copied().find(|x| *x == id)
 }
 
+/// per-property multiplier (percent) of the quick-tier case counts written next to each
+/// campaign: the cheap in-memory campaigns are run until a quick check takes ~10-30 s
+static QUICK_BOOST_PCT: std::sync::atomic::AtomicU64 = std::sync::atomic::AtomicU64::new(100);
+
+fn quick_boost(id: &str) -> u64 {
+    match id {
+        "C01" | "C02" | "C03" | "C04" => 600,
+        "C05" | "C06" | "C19" => 300,
+        "C07" => 400,
+        "C13" | "C14" => 500,
+        "C17" => 800,
+        "C18" => 300,
+        "C12" => 200,
+        _ => 100,
+    }
+}
+
 fn scale(n: u32) -> u32 {
     // VERIF_SCALE_PCT lets the sensitivity scripts shorten or lengthen campaigns
     let pct = crate::util::env_u64("VERIF_SCALE_PCT", 100);
-    ((n as u64 * pct / 100).max(1)) as u32
+    let boost = QUICK_BOOST_PCT.load(std::sync::atomic::Ordering::Relaxed);
+    ((n as u64 * pct / 100 * boost / 100).max(1)) as u32
 }
 
 /// Run every campaign of a property; returns the evidence (violations inside).
 pub fn run(id: &'static str, tier: Tier, seed: u64) -> Option<Evidence> {
     let ctx = Ctx::new(id, tier, seed);
     let sh = driver::shards();
+    QUICK_BOOST_PCT.store(if tier == Tier::Quick { quick_boost(id) } else { 100 }, std::sync::atomic::Ordering::Relaxed);
     match id {
         "C01" => {
             let mut ev = Evidence::new(
@@ -110,13 +129,13 @@ pub fn run(id: &'static str, tier: Tier, seed: u64) -> Option<Evidence> {
             );
             ev.assume("OS schedules are sampled, not enumerated, and are not a function of the seed (the seed fixes workloads and yield patterns only)");
             ev.assume("realistic failure modes of a forbid(unsafe) crate here are lock-discipline edits (try_lock, lock released between metric and terminator, per-thread buffers), which heavy contention exposes quickly");
-            let c = StressCampaign { name: "stress-shared-client", sinks: &[StressSink::Spy, StressSink::Spy, StressSink::Unix, StressSink::Udp, StressSink::QueuedSpy], judge_errors: false, framing_only: false };
+            let c = StressCampaign { name: "stress-shared-client", sinks: &[StressSink::Spy, StressSink::Spy, StressSink::Unix, StressSink::Udp, StressSink::QueuedSpy], judge_errors: false, framing_only: false, greedy_only: false };
             if driver::run_random(&c, &ev, &ctx, scale(tier.pick(300, 3_000)), 2) {
                 let bf = sockets::BlockedFlushCampaign { name: "unix-flush-behind-blocked-emit" };
                 driver::run_random(&bf, &ev, &ctx, scale(tier.pick(6, 60)), 4);
             }
             if ev.violations().is_empty() && tier == Tier::Thorough {
-                let b = StressCampaign { name: "stress-blocked-receiver", sinks: &[StressSink::UnixBlockedReceiver], judge_errors: false, framing_only: false };
+                let b = StressCampaign { name: "stress-blocked-receiver", sinks: &[StressSink::UnixBlockedReceiver], judge_errors: false, framing_only: false, greedy_only: false };
                 driver::run_random(&b, &ev, &ctx, scale(200), 2);
             }
             Some(ev)
@@ -607,6 +626,25 @@ fn run_writer(id: &'static str, tier: Tier, seed: u64, ctx: &Ctx, sh: u32) -> Ev
             ],
             judge_errors: false,
             framing_only: true,
+            greedy_only: false,
+        };
+        if !driver::run_random(&sc, &ev, ctx, scale(tier.pick(40, 600)), 2) {
+            return ev;
+        }
+    }
+    if id == "C19" {
+        // greedy packing must also hold when several threads share the sink (no explicit flushes)
+        let sc = crate::stress::StressCampaign {
+            name: "stress-greedy",
+            sinks: &[
+                crate::stress::StressSink::Udp,
+                crate::stress::StressSink::Unix,
+                crate::stress::StressSink::Spy,
+                crate::stress::StressSink::QueuedSpy,
+            ],
+            judge_errors: false,
+            framing_only: false,
+            greedy_only: true,
         };
         if !driver::run_random(&sc, &ev, ctx, scale(tier.pick(40, 600)), 2) {
             return ev;
@@ -620,6 +658,7 @@ fn run_writer(id: &'static str, tier: Tier, seed: u64, ctx: &Ctx, sh: u32) -> Ev
             sinks: &[crate::stress::StressSink::Spy],
             judge_errors: false,
             framing_only: false,
+            greedy_only: false,
         };
         if !driver::run_random(&sc, &ev, ctx, scale(tier.pick(40, 600)), 2) {
             return ev;
@@ -636,6 +675,7 @@ fn run_writer(id: &'static str, tier: Tier, seed: u64, ctx: &Ctx, sh: u32) -> Ev
             sinks: &[crate::stress::StressSink::Spy, crate::stress::StressSink::Unix],
             judge_errors: true,
             framing_only: false,
+            greedy_only: false,
         };
         if !driver::run_random(&sc, &ev, ctx, scale(tier.pick(30, 600)), 2) {
             return ev;
@@ -712,13 +752,14 @@ pub fn replay(id: &'static str, campaign: &str, case: &serde_json::Value, tier: 
     try_camp!(FmtCampaign::new("fmt-panic", Focus::Panic));
     try_camp!(WriterCampaign::new("mlw-panic", Rule::Panic, Seam::Mlw, gen_default(30, true)));
     try_camp!(WriterCampaign::new("mlw-panic-tinycap", Rule::Panic, Seam::MlwTiny, gen_default(20, true)));
-    try_camp!(crate::stress::StressCampaign { name: "stress-shared-client", sinks: &[crate::stress::StressSink::Spy], judge_errors: false, framing_only: false });
-    try_camp!(crate::stress::StressCampaign { name: "stress-blocked-receiver", sinks: &[crate::stress::StressSink::UnixBlockedReceiver], judge_errors: false, framing_only: false });
-    try_camp!(crate::stress::StressCampaign { name: "stress-no-spurious-errors", sinks: &[crate::stress::StressSink::Spy], judge_errors: true, framing_only: false });
-    try_camp!(crate::stress::StressCampaign { name: "stress-framing", sinks: &[crate::stress::StressSink::Spy], judge_errors: false, framing_only: true });
+    try_camp!(crate::stress::StressCampaign { name: "stress-shared-client", sinks: &[crate::stress::StressSink::Spy], judge_errors: false, framing_only: false, greedy_only: false });
+    try_camp!(crate::stress::StressCampaign { name: "stress-blocked-receiver", sinks: &[crate::stress::StressSink::UnixBlockedReceiver], judge_errors: false, framing_only: false, greedy_only: false });
+    try_camp!(crate::stress::StressCampaign { name: "stress-no-spurious-errors", sinks: &[crate::stress::StressSink::Spy], judge_errors: true, framing_only: false, greedy_only: false });
+    try_camp!(crate::stress::StressCampaign { name: "stress-greedy", sinks: &[crate::stress::StressSink::Spy], judge_errors: false, framing_only: false, greedy_only: true });
+    try_camp!(crate::stress::StressCampaign { name: "stress-framing", sinks: &[crate::stress::StressSink::Spy], judge_errors: false, framing_only: true, greedy_only: false });
     try_camp!(crate::queue::concurrent::PanicStorm { name: "queue-isolation-panic-storm", focus: QRule::Isolation });
     try_camp!(crate::queue::concurrent::PanicStorm { name: "queue-panic-storm", focus: QRule::Panics });
-    try_camp!(crate::stress::StressCampaign { name: "stress-flush-markers", sinks: &[crate::stress::StressSink::Spy], judge_errors: false, framing_only: false });
+    try_camp!(crate::stress::StressCampaign { name: "stress-flush-markers", sinks: &[crate::stress::StressSink::Spy], judge_errors: false, framing_only: false, greedy_only: false });
     try_camp!(sockets::BlockedFlushCampaign { name: "unix-flush-behind-blocked-emit" });
     #[cfg(cadence_verif)]
     {
